@@ -113,12 +113,62 @@ func copyTree(src, dst string) error {
 	})
 }
 
+// packageVars collects the names of the package-level variables of one package directory
+// (sentinel errors "Err…" excluded): functions that touch them are where state shared between
+// calls lives, and the scheduler prefers to preempt there.
+func packageVars(dir string) map[string]bool {
+	vars := map[string]bool{}
+	entries, _ := os.ReadDir(dir)
+	for _, e := range entries {
+		n := e.Name()
+		if e.IsDir() || !strings.HasSuffix(n, ".go") || strings.HasSuffix(n, "_test.go") {
+			continue
+		}
+		f, err := parser.ParseFile(token.NewFileSet(), filepath.Join(dir, n), nil, 0)
+		if err != nil {
+			continue
+		}
+		for _, d := range f.Decls {
+			gd, ok := d.(*ast.GenDecl)
+			if !ok || gd.Tok != token.VAR {
+				continue
+			}
+			for _, sp := range gd.Specs {
+				for _, id := range sp.(*ast.ValueSpec).Names {
+					if id.Name != "_" && !strings.HasPrefix(id.Name, "Err") {
+						vars[id.Name] = true
+					}
+				}
+			}
+		}
+	}
+	return vars
+}
+
+func usesPackageVar(body *ast.BlockStmt, vars map[string]bool) bool {
+	found := false
+	ast.Inspect(body, func(n ast.Node) bool {
+		if id, ok := n.(*ast.Ident); ok && vars[id.Name] && (id.Obj == nil || id.Obj.Kind == ast.Var && id.Obj.Decl != nil) {
+			if id.Obj != nil {
+				// resolved inside this file: package level only if declared by a top-level ValueSpec
+				if _, isSpec := id.Obj.Decl.(*ast.ValueSpec); !isSpec {
+					return true
+				}
+			}
+			found = true
+		}
+		return !found
+	})
+	return found
+}
+
 func instrumentFile(path, pkg string) (int, error) {
 	fset := token.NewFileSet()
 	f, err := parser.ParseFile(fset, path, nil, parser.ParseComments)
 	if err != nil {
 		return 0, err
 	}
+	vars := packageVars(filepath.Dir(path))
 	count := 0
 	base := filepath.Base(path)
 	for _, d := range f.Decls {
@@ -127,12 +177,16 @@ func instrumentFile(path, pkg string) (int, error) {
 			continue
 		}
 		name := fd.Name.Name
+		hot := ""
+		if usesPackageVar(fd.Body, vars) {
+			hot = "!" // a function that touches package-level state
+		}
 		var walk func(n ast.Node)
 		instr := func(list []ast.Stmt) []ast.Stmt {
 			out := make([]ast.Stmt, 0, 2*len(list))
 			for _, s := range list {
 				line := fset.Position(s.Pos()).Line
-				site := fmt.Sprintf("%s/%s:%d %s", pkg, base, line, name)
+				site := fmt.Sprintf("%s%s/%s:%d %s", hot, pkg, base, line, name)
 				call := &ast.ExprStmt{X: &ast.CallExpr{
 					Fun:  &ast.SelectorExpr{X: ast.NewIdent("simyield"), Sel: ast.NewIdent("Y")},
 					Args: []ast.Expr{&ast.BasicLit{Kind: token.STRING, Value: strconv.Quote(site)}},
